@@ -220,6 +220,20 @@ CHECKS = {
         technique='solver-enumerated bounded exploration (z3 DFS) with native execution of the real code on real .xlsx files',
         engine='E2',
     ),
+    'C18': dict(
+        category='other',
+        text=('Bounded exhaustive exploration of sparse workbook layouts (presence bits of a 3x3 block, a far cell G10, a fixed sparse second sheet with '
+              'an optional array formula, an empty third sheet; 1 024 layouts for each of 11 rotations of a typed value family), enumerated by z3 '
+              'and executed natively: every layout is a real .xlsx written by openpyxl and translated by the real Parser; on the loaded class every '
+              'coordinate of a 5x5 box on every sheet is compared (value and exact type, or blank) with what plain openpyxl reads back from the '
+              'same file, together with the titles in workbook order and the sizes.'),
+        design_ref='DESIGN.md section 6 / C18',
+        note=('the solver is the exhaustive enumerator of the stated finite layout space (nothing stays symbolic through file I/O); real openpyxl is '
+              'exercised, no stub; value kinds outside the family (date without time, time, timedelta, empty text), more sheets or larger blocks are '
+              'outside the claim.'),
+        technique='solver-enumerated bounded exploration (z3 DFS) with native execution of the real code on real .xlsx files',
+        engine='E2',
+    ),
 }
 
 NOT_YET = {}   # filled below for every property without a check
